@@ -228,6 +228,24 @@ let op_ps_restart _ =
   | Some blocks, Some (ok, r) -> ps_pop := r; ps_emit_pop_txt "rst" ok blocks
   | _, _ -> emit "rst ok=0 dump-throws"
 
+(* the final dump at shutdown next to a periodic dump: the Gallina two-thread model (PsShutdown.v) run on the directed
+   schedule says whether OnShutdown's dump throws and whether the files lack the change; the change made inside the op
+   (notes of object 0) and the reload are the population model's *)
+let op_ps_dumpstate _ = emit "dumpstate"
+let op_ps_shutdown a =
+  let sched = str a "sched" "parked" in
+  let (mok, o) = ps_modify_attribute ps_fenv (ps_k "notes") (ps_parse (str a "val" "S78")) true (z_of_int !now) (ps_get 0) in
+  ps_pop := ps_pop_set (ps_oname 0) o !ps_pop;
+  emit (ps_state_line "mod" mok 0 o);
+  let (threw, stale) = psd_observe psd_src_skip (match sched with "late" -> if psd_src_serial then psd_sched_late_serial else psd_sched_late | "parked" -> psd_sched_parked | _ -> psd_sched_free) in
+  emit (Printf.sprintf "shut threw=%d stale=%d" (if threw then 1 else 0) (if stale then 1 else 0));
+  if sched <> "late" then begin
+    (match ps_pop_dump !ps_pop, ps_pop_restart_text ps_fenv (z_of_int !now) !ps_pop !ps_pop0 with
+     | Some blocks, Some (ok, r) -> ps_pop := r; ps_emit_pop_txt "rst" ok blocks
+     | _, _ -> emit "rst ok=0 dump-throws");
+    emit "st all=1 diff=-"
+  end
+
 let ps_set_slot n v = if List.mem_assoc n !ps_slots then ps_slots := List.map (fun (k, x) -> if k = n then (k, v) else (k, x)) !ps_slots
   else ps_slots := !ps_slots @ [(n, v)]
 
@@ -374,8 +392,28 @@ let oracle_c14_case script trace =
          | _ -> ());
         (match o with Some o -> Hashtbl.replace cur i o | None -> ())
       end
-    | Some (("ps_dma" | "ps_restart") as opn, _) ->
-      let full = opn = "ps_restart" in
+    | Some ("ps_dumpstate", _) -> let l = next () in if !err = None && l <> "dumpstate" then fail ("periodic-dump-failed " ^ l)
+    | Some (("ps_dma" | "ps_restart" | "ps_shutdown") as opn, a) when
+        (opn <> "ps_shutdown" ||
+         begin
+           (* the change made inside the op, then the observation at the return of OnShutdown's dump *)
+           let l = next () in
+           (if !err = None then match (try Some (ps_parse_state l) with _ -> None) with
+              | Some (_, i, Some o) -> Hashtbl.replace cur i o
+              | _ -> fail ("shutdown-bad-line " ^ l));
+           let l = next () in
+           (if !err = None then begin
+              let t = toks_of l in
+              match tok_val t "threw", tok_val t "stale" with
+              | Some th, Some sl when tok_val t "pto" = None ->
+                let c = ps_int_of_n (psd_orc (th = "1") (sl = "1")) in
+                if c = 41 then fail (Printf.sprintf "shutdown-dump-threw sched=%s stale=%s" (str a "sched" "parked") sl)
+                else if c = 40 then fail (Printf.sprintf "shutdown-dump-stale sched=%s" (str a "sched" "parked"))
+              | _ -> fail ("shutdown-bad-line " ^ l)
+            end);
+           !err = None && str a "sched" "parked" <> "late"
+         end) ->
+      let full = opn <> "ps_dma" in
       let l = next () in
       if !err = None then begin
         let (ok0, _, o0) = ps_parse_state l in
@@ -417,6 +455,11 @@ let oracle_c14_case script trace =
              configured value (the replay re-recorded it) *)
           open_mods := List.filter (fun ((i, p), _) -> match Hashtbl.find_opt cur i with Some o -> ps_orig_mentions p o | None -> false) !open_mods
         end
+      end;
+      (* the runtime state of every host as restored from the files the shutdown dump left *)
+      if opn = "ps_shutdown" && !err = None then begin
+        let l = next () in
+        if !err = None && l <> "st all=1 diff=-" then fail ("shutdown-state-lost " ^ l)
       end
     | Some ("ps_cr", a) ->
       let l = next () in
@@ -501,6 +544,8 @@ let () =
   register_op "ps_res" op_ps_res;
   register_op "ps_dma" op_ps_dma;
   register_op "ps_restart" op_ps_restart;
+  register_op "ps_dumpstate" op_ps_dumpstate;
+  register_op "ps_shutdown" op_ps_shutdown;
   register_op "ps_snew" op_ps_snew;
   register_op "ps_cr" op_ps_cr;
   register_op "ps_crall" (fun a -> emit (Printf.sprintf "crall n=%d" (num a "n" 0)));
